@@ -16,7 +16,7 @@ ID = "C15"
 LEVEL = "exploration"
 BUDGET = {"quick": (3000, 35), "thorough": (800_000, 540)}
 RULE = ("program shapes {recursion, super() chain, callee exception caught, exception propagating, generator "
-        "suspended/closed, nesting, leaf} x 1-3 span/capture tracepoints (method span, line span, method capture, line "
+        "suspended/closed, nesting, leaf, configuration emptied while the invocation runs} x 1-3 span/capture tracepoints (method span, line span, method capture, line "
         "capture; fire_count 1 or unlimited) x 1-3 threads each running 1-4 shapes x thread-ident reuse x seeded "
         "schedules; non-trivial = a run with at least one span opened or one snapshot deferred; distinct = distinct "
         "(tracepoints, thread programs, outcome) keys")
@@ -85,9 +85,18 @@ def nest(tag, out):
     out.append(('ret', tag + 'b', b))
     return 'r' + tag
 
+def swapper(tag, out):
+    a = leaf(tag + 'w', out)  #L:swap_a
+    swap_config()
+    b = 'r' + tag
+    return b
+
 def drive(shape, tag, out):
     try:
-        if shape == 'rec':
+        if shape == 'swap':
+            v = swapper(tag, out)
+            restore_config()
+        elif shape == 'rec':
             v = rec(2, tag, out)
         elif shape == 'super':
             v = Child().work(tag, out)
@@ -111,9 +120,9 @@ def tmain(tid, acts, out):
     for j, shape in enumerate(acts):
         drive(shape, 't%d_%d' % (tid, j), out)
 '''
-SHAPES = ("rec", "super", "catch", "pass", "gen", "nest", "leaf")
-FUNCS = ("rec", "work", "catcher", "passer", "thrower", "leaf", "usegen", "gen", "nest")
-LINES = ("rec_call", "super_call", "catch_call", "pass_call", "gen_next", "nest_a", "nest_b", "leaf_body")
+SHAPES = ("rec", "super", "catch", "pass", "gen", "nest", "leaf", "swap")
+FUNCS = ("rec", "work", "catcher", "passer", "thrower", "leaf", "usegen", "gen", "nest", "swapper")
+LINES = ("rec_call", "super_call", "catch_call", "pass_call", "gen_next", "nest_a", "nest_b", "leaf_body", "swap_a")
 GEN_FUNCS = ("gen",)
 
 
@@ -142,7 +151,10 @@ def generate(seed, tier):
             tp["line"] = r.choice(LINES)
         tps.append(tp)
     nthreads = r.choice((1, 1, 2, 3))
-    threads = [[r.choice(SHAPES) for _ in range(r.randrange(1, 5))] for _ in range(nthreads)]
+    # the configuration swap is process-wide: only used when a single thread runs (other threads' hits would be
+    # suppressed while the configuration is empty, which is not what this property is about)
+    shapes = SHAPES if nthreads == 1 else tuple(x for x in SHAPES if x != "swap")
+    threads = [[r.choice(shapes) for _ in range(r.randrange(1, 5))] for _ in range(nthreads)]
     return {"tps": tps, "threads": threads, "sequential": r.random() < 0.4,
             "knobs": common.draw_knobs(r, stall_p=0.0, ident_reuse_p=r.choice((0.0, 0.5, 1.0)))}
 
@@ -212,7 +224,20 @@ def execute(s, ch):
             trig.append(Trigger(loc, [act]))
         w.handler.new_config(trig)
         rec.depth = 2
-        g = p.load()
+
+        empty_ranges = []
+
+        def swap_config():
+            # the last tracepoint is deleted (as the poll thread would do) while an invocation has work pending
+            k.fault("config_emptied_mid_invocation")
+            w.handler.new_config([])
+            empty_ranges.append([len(rec.events), 1 << 60])
+
+        def restore_config():
+            w.handler.new_config(trig)
+            if empty_ranges:
+                empty_ranges[-1][1] = len(rec.events)
+        g = p.load({"swap_config": swap_config, "restore_config": restore_config})
         outs = [[] for _ in s["threads"]]
         fns = [lambda ti=ti, acts=acts: g["tmain"](ti + 1, acts, outs[ti]) for ti, acts in enumerate(s["threads"])]
         if s["sequential"]:
@@ -296,7 +321,7 @@ def execute(s, ch):
                     m = event == "call" and func == tp["func"] and base == p.basename
                 else:
                     m = event == "line" and line == line_of[tp["line"]] and base == p.basename
-                if not m:
+                if not m or any(a_ <= seq <= b_ for a_, b_ in empty_ranges):
                     continue
                 if racy:
                     # several threads race for a limited fire budget: which hit wins is not demanded, so an
